@@ -795,6 +795,12 @@ namespace awkward {
           number++;
         }
       }
+      else if (!fully_parsed  &&  stream.Peek() == 0  &&
+               reader.GetParseErrorCode() != rj::kParseErrorDocumentEmpty) {
+        throw std::invalid_argument(
+            std::string("incomplete JSON object at the end of the stream")
+            + FILENAME(__LINE__));
+      }
       else if (stream.Peek() != 0) {
         throw std::invalid_argument(
           std::string("JSON File error at char ")
